@@ -24,6 +24,23 @@ CHECKS = {
         note="Trusted: TLC, the message parser in harness/cmd/vh/excerpt.go; columns are byte offsets.",
         technique="TLA+ model (Excerpt.tla) checked by TLC; exhaustive replay of model states into reporting.Reporter",
         design="5/C19"),
+    "C01": dict(
+        text="TLC checks that the declaration-by-declaration walk of the immutable checker (context reset on leaving a declaration) "
+             "reports exactly what the property demands for every abstract program in four bounded spaces: all single containers "
+             "(9 container kinds x 16 statements x receiver/parameter x pointer/value x 11 nestings x 24 annotation records x 2 packages), "
+             "all sequences of 2 (quick) / 3 (thorough) containers over 1-2 files, and all type spellings; with termination and the action "
+             "property that the context never outlives its declaration. Every emitted scenario (quick: seeded sample of the singles) is "
+             "concretised to a multi-package Go program and run through the real analyzers; a sample also through the real binary and go vet.",
+        note="Trusted: TLC, the concretisation in lib/gen_imm.py (every program is type-checked before use), the in-process driver built on x/tools checker.",
+        technique="TLA+ model (Immutable.tla) checked by TLC; TLC-enumerated programs replayed into the real analyzers (in-process, binary, go vet)",
+        design="5/C01"),
+    "C02": dict(
+        text="Same construction as C01 for Constructor.tla: single containers (8 kinds incl. package-level declarations x 10 instantiation forms x "
+             "11 nestings x all constructor-list spellings x 2 packages), sequences of 2/3 containers over 1-2 files, all type spellings; every "
+             "emitted scenario replayed into the real analyzers, a sample through the real binary and go vet.",
+        note="Trusted: TLC, lib/gen_imm.py, the in-process driver; trailing comma in the list and methods named like a constructor are not generated.",
+        technique="TLA+ model (Constructor.tla) checked by TLC; TLC-enumerated programs replayed into the real analyzers (in-process, binary, go vet)",
+        design="5/C02"),
 }
 
 NOT_YET = "check not built yet in this session; the property is in scope of the TLA+ specification (see DESIGN.md section 5) and will be claimed when its replay binding is in place"
